@@ -13,7 +13,7 @@ import (
 func init() { Registry["C10"] = checkC10 }
 
 func checkC10(p *core.Prog, r *core.Report) {
-	r.Explanation = "Decides structural necessary conditions of leader-only decisions: (R1) in LockDB.Lock/UnLock every engine mutation (mutator call or store to hold/queue/value state) lies on a path where the node's role was tested under the shard mutex in the same critical section and is leader, or the request is marked as replay (FROM_AOF); the role field LockDB.status is only written with the shard mutexes held (interprocedural lock-state); (R2) in the follower-side (Transparency*) protocols every call into the local engine lies on a path that tested slock.state == LEADER (or, for pass-through of non-lock commands, tested the command type); (R3) PushLockAof / PushUnLockAof / PushExecutorLockCommand reach their push only after testing status == LEADER; (R4) doExpried ends a hold on its own clock only when forced, leader, not replicated, or after the leader-wait window (EXPRIED_WAIT_LEADER_MAX_TIME) has elapsed; (R5) the leader and follower text command registries have the same command names; (R6) the replay mark FROM_AOF (flag 0x04), which exempts a request from the role test, is never taken from a client frame: every client-facing decoder path to the engine masks or rejects it. (R7) the only local answer of a non-leader, the concurrent-check shortcut, is given only to requests with that flag and Timeout == 0; (R8) AddLock marks every hold created from a replayed record as isAof independent of role (what the follower's expiry arm re-arms); (R9) Server.handle re-dispatches the request a protocol object had already read when it handed back AGAIN (role change) before reading the next one. NOT decided: reply relaying fidelity, reconnection to a new leader, equality of outcomes across nodes."
+	r.Explanation = "Decides structural necessary conditions of leader-only decisions: (R1) in LockDB.Lock/UnLock every engine mutation (mutator call or store to hold/queue/value state) lies on a path where the node's role was tested under the shard mutex in the same critical section and is leader, or the request is marked as replay (FROM_AOF); the role field LockDB.status is only written with the shard mutexes held (interprocedural lock-state); (R2) in the follower-side (Transparency*) protocols every call into the local engine lies on a path that tested slock.state == LEADER (or, for pass-through of non-lock commands, tested the command type); (R3) PushLockAof / PushUnLockAof / PushExecutorLockCommand reach their push only after testing status == LEADER; (R4) doExpried ends a hold on its own clock only when forced, leader, not replicated, or after the leader-wait window (EXPRIED_WAIT_LEADER_MAX_TIME) has elapsed; (R5) the leader and follower text command registries have the same command names; (R6) the replay mark FROM_AOF (flag 0x04), which exempts a request from the role test, is never taken from a client frame: every client-facing decoder path to the engine masks or rejects it. (R7) the only local answer of a non-leader, the concurrent-check shortcut, is given only to requests with that flag and Timeout == 0; (R8) AddLock marks every hold created from a replayed record as isAof independent of role (what the follower's expiry arm re-arms); (R9) Server.handle re-dispatches the request a protocol object had already read when it handed back AGAIN (role change) before reading the next one; (R10) the wake-up pass tests the role before it grants a queued request (it does not: known finding). NOT decided: reply relaying fidelity, reconnection to a new leader, equality of outcomes across nodes."
 	r.Assumptions = []string{"Go type checker, go/ssa and VTA call graph are correct for /repo", "all *PriorityMutex values are one abstract lock class"}
 	c10R1(p, r)
 	c10R1b(p, r)
@@ -25,6 +25,7 @@ func checkC10(p *core.Prog, r *core.Report) {
 	c10R7(p, r)
 	c10R8(p, r)
 	c10R9(p, r)
+	c10R10(p, r)
 }
 
 func engineStateStore(k core.FieldKey) bool {
@@ -655,5 +656,53 @@ func c10R9(p *core.Prog, r *core.Report) {
 	}
 	if n == 0 {
 		r.Fail("C10/R9: no Process call found in Server.handle")
+	}
+}
+
+// c10R10: Lock and UnLock test the database's role before they decide
+// anything (R1), but a request that was queued while the node was leader is
+// granted later by the wake-up pass - after an unlock, a timeout or an expiry
+// on the node's own clock. A demotion does not flush the wait queues, so the
+// wake-up pass has to test the role itself before it grants.
+func c10R10(p *core.Prog, r *core.Report) {
+	const rule = "C10/R10"
+	r.Rule(rule, "the wake-up pass grants a queued request (AddLock in wakeUpWaitLock) only on a path that tested the database's role", 1)
+	fn := mustFunc(p, r, "server.(*LockDB).wakeUpWaitLock")
+	if fn == nil {
+		return
+	}
+	self := fn.Params[0].Name()
+	n := 0
+	bad := false
+	ex := core.NewExplorer(p, core.Hooks{
+		Track: func(x *core.X, a core.Atom) bool { return strings.Contains(core.Plain(a.String()), ".status") },
+		Instr: func(x *core.X) {
+			if !calleeIs(x.Ins, "LockManager", "AddLock") {
+				return
+			}
+			n++
+			key := "server.(*LockDB).wakeUpWaitLock: grant of a queued request"
+			tested := false
+			for h := range x.St.Hist {
+				if strings.HasPrefix(core.Plain(h), self+".status ") || strings.Contains(core.Plain(h), ".slock.state ") {
+					tested = true
+				}
+			}
+			if tested {
+				if !bad {
+					r.Hold(rule, key, x.Pos(), "role tested before the grant")
+				}
+			} else if !bad {
+				bad = true
+				r.Violate(rule, key, x.Pos(), "the wake-up pass grants a queued request without testing the database's role: a request queued while the node was leader is granted by the demoted node on its own (after a hold expires on its clock, a timeout or an unlock record), answered SUCCED, and the real leader knows nothing of it", x.St.Trace)
+			}
+		},
+	})
+	ex.Run(fn, nil)
+	if ex.Imprecise != "" {
+		r.Fail("C10/R10: %s", ex.Imprecise)
+	}
+	if n == 0 {
+		r.Fail("C10/R10: wakeUpWaitLock grants nothing (AddLock not found)")
 	}
 }
